@@ -171,6 +171,14 @@ func newNode(r *Rng) (*node, error) {
 			n.wltAddr = append(n.wltAddr, sa)
 		}
 	}
+	// the plain wallet's keys, so that the harness can sign spends of its outputs itself
+	if es, err := w1.GetEntries(); err == nil {
+		for _, e := range es {
+			if sa, ok := e.Address.(cipher.Address); ok && (e.Secret != cipher.SecKey{}) {
+				w.KeyOf[sa] = e.Secret
+			}
+		}
+	}
 	w2, err := n.ws.CreateWallet("enc.wlt", wallet.Options{Type: wallet.WalletTypeDeterministic, Seed: "enc " + seedPhrase, Label: "enc", Encrypt: true,
 		Password: []byte("pw"), CryptoType: crypto.CryptoTypeSha256Xor, GenerateN: 2})
 	if err != nil {
@@ -1408,6 +1416,54 @@ func run(args []string) error {
 	}
 	// phase B: 7 blocks, one transaction in the pool
 	sweep("chain of 7 blocks")
+
+	// phase C: CONFLICTING transactions in the pool.  Injection only checks a
+	// transaction against the confirmed unspent set, so the pool takes several
+	// transactions that spend the same output: double and triple spends of a wallet
+	// address's ONLY output without change back, and of another address's output.
+	{
+		ht := n.blocks[len(n.blocks)-1].Time()
+		var victims coin.UxArray
+		if m, err := n.v.GetUnspentsOfAddrs(n.wltAddr); err == nil {
+			for _, a := range n.wltAddr {
+				if len(m[a]) == 1 { // the address holds exactly one output
+					victims = append(victims, m[a][0])
+				}
+			}
+		}
+		if len(victims) > 2 {
+			victims = victims[:2]
+		}
+		if len(n.unspent) > 0 {
+			victims = append(victims, n.unspent[len(n.unspent)-1])
+		}
+		nConf := 0
+		for vi, ux := range victims {
+			if _, ok := n.w.KeyOf[ux.Body.Address]; !ok || nk.HoursAt(ux, ht) < 2 {
+				continue
+			}
+			k := 2 + vi%2 // double spend, triple spend, ...
+			for j := 0; j < k; j++ {
+				// everything goes to other addresses (no change back), each time to a different one
+				dst := n.w.Addrs[(1+j+vi)%(nk.NKeys-1)]
+				if dst == ux.Body.Address {
+					dst = n.w.Addrs[(2+j+vi)%(nk.NKeys-1)]
+				}
+				hours := nk.HoursAt(ux, ht)
+				t := n.w.BuildTxn([]cipher.SHA256{ux.Hash()}, []coin.TransactionOutput{{Address: dst, Coins: ux.Body.Coins, Hours: hours - (hours+9)/10 - uint64(j)%(hours/2+1)/2}}, nk.TxOpts{})
+				if _, _, err := n.v.InjectForeignTransaction(t); err == nil {
+					n.pooled = append(n.pooled, t)
+					nConf++
+				}
+			}
+		}
+		o.Side["conflicting_pool_txns"] = nConf
+		hist.Add(fmt.Sprintf("conflicting_pool_txns=%d", nConf))
+		if !n.alive() {
+			return fmt.Errorf("the node does not answer after conflicting transactions were injected")
+		}
+		sweep("conflicting spends in the pool")
+	}
 
 	// 0b. structurally skewed but decodable transactions built from the node's real
 	// unspent outputs (those of the wallet's addresses first), sent to every endpoint
